@@ -571,29 +571,10 @@ func (r *Run) checkAddLink(sums *Summaries) {
 		r.Check(path == nil, "add-link.sensor-target", p.Pos(c.Pos()), "a sensor target is rejected (flag-sensitive path search: no path from `target is a sensor` to `pair found`)", "a pair whose target node is a sensor can be accepted", path...)
 	})
 	if nRej == 0 {
-		// the index-offset mechanism alone
-		okIdx := true
-		for _, f := range target.Feeders {
-			t := tm.Of(f)
-			if !(t.Op == "elem" && len(t.Args) > 1) {
-				okIdx = false
-				continue
-			}
-			idxOK := false
-			for _, alt := range t.Args[1].Alternatives() {
-				if alt.Op == "bin" && alt.Name == "+" && strings.Contains(alt.String(), "rand.Intn((len(recv.Nodes)-") {
-					idxOK = true
-				} else if alt.Op == "const" && alt.Name == "0" {
-				} else if alt.Op != "loop" {
-					idxOK = false
-					break
-				}
-			}
-			if !idxOK {
-				okIdx = false
-			}
-		}
-		r.Check(okIdx, "add-link.sensor-target", p.Pos(fn.Pos()), "the target index is drawn from firstNonSensor + Intn(n - firstNonSensor)", "neither an explicit IsSensor rejection nor the index offset past the sensors keeps a sensor from becoming the target of the new link")
+		// The index offset `firstNonSensor + Intn(n - firstNonSensor)` only skips the sensors that lead the
+		// node list. Nodes are ordered by id, not by role: a genome with inputs 1,2, output 3 and bias 4 has a
+		// sensor behind a neuron, so the offset alone does not keep sensors from receiving a link.
+		r.Bad("add-link.sensor-target", p.Pos(fn.Pos()), "the drawn target node is not tested with IsSensor(); the index offset past the leading sensors does not exclude a sensor whose id is larger than a neuron's (node lists are ordered by id), so the new link can end in an input or bias node")
 	}
 	// (b) existing-link scan
 	linkF := func(t *Term, v ssa.Value, path ...string) bool { return fieldChainOnWeb(t, v, path...) }
